@@ -41,7 +41,7 @@ def layers(tier):
 
 def floors(tier):
     return {"sign_steps": 400, "verify_expected_ok": 500, "verify_expected_fail": 2000,
-            "atomicity_cases": 100, "generated_keys": 3, "ec_confirmed": 100, "resign_same_key_id": 40,
+            "atomicity_cases": 100, "generated_keys": 3, "ec_confirmed": 100, "resign_same_key_id": 40, "large_objects": 8,
             "_distinct_nontrivial": 1000}
 
 
@@ -164,9 +164,18 @@ def shard(ctx):
                               {"op": "keypair_generate"})
             gen_keys.append((seed, der))
 
+    big_sizes = [65534, 65535, 65536, 65537, 70000, 131072, 300000]
     for case_no in range(n_objects):
         obj = g.rand_object(rng, depth=rng.randint(1, 4), width=rng.randint(1, 5))
         obj.pop("signatures", None)
+        if case_no < 2 and ctx.shard < len(big_sizes):
+            # signing has no size limit (only events have one): large objects around 64 KiB and beyond
+            obj.pop("unsigned", None)
+            want_size = big_sizes[(ctx.shard + case_no * 3) % len(big_sizes)]
+            obj["pad"] = ""
+            cur_size = len(canonjson.encode(obj))
+            obj["pad"] = "p" * max(0, want_size - cur_size)
+            rep.count("large_objects")
         if rng.random() < 0.5:
             obj["unsigned"] = g.rand_value(rng, 2, 3) if rng.random() < 0.5 else {"age": 5}
         else:
